@@ -3,6 +3,8 @@
 # Copyright (c) Jupyter Development Team.
 # Distributed under the terms of the Modified BSD License.
 
+import copy
+
 from .log import NBDiffFormatError
 
 
@@ -114,7 +116,8 @@ class SequenceDiffBuilder(object):
 
     def addrange(self, key, valuelist):
         if valuelist:
-            self.append(op_addrange(key, valuelist))
+            # Copy so that the diff does not share structure with the diffed object
+            self.append(op_addrange(key, copy.deepcopy(valuelist)))
 
     def removerange(self, key, length):
         if length:
@@ -153,13 +156,14 @@ class MappingDiffBuilder(object):
         self._diff[entry.key] = entry
 
     def add(self, key, value):
-        self.append(op_add(key, value))
+        # Copy so that the diff does not share structure with the diffed object
+        self.append(op_add(key, copy.deepcopy(value)))
 
     def remove(self, key):
         self.append(op_remove(key))
 
     def replace(self, key, value):
-        self.append(op_replace(key, value))
+        self.append(op_replace(key, copy.deepcopy(value)))
 
     def patch(self, key, diff):
         if diff:
